@@ -302,7 +302,10 @@ def eval_sched_case(flex, workdir, case):
                 kind = 'request-mismatch'
                 if k < len(rev) and k < len(mev) and rev[k][0] == 'Q' and mev[k][0] == 'T':
                     consumed = sum(e[2] for e in mev[:k + 1] if e[0] == 'T')
-                    if 0 < consumed <= len(w) and w[consumed - 1] == 0:
+                    obtained = sum(e[1] for e in rev[:k] if e[0] == 'Q')
+                    # the known finding: the last byte obtained so far is a NUL that completes the match (the token itself or,
+                    # for a rule with trailing context, the token plus its context)
+                    if (0 < consumed <= len(w) and w[consumed - 1] == 0) or (0 < obtained <= len(w) and w[obtained - 1] == 0):
                         kind = 'request-early-after-nul'
                 res['problems'].append((kind, "%s at event %d: real=%s window-machine=%s" % (desc, k, rev[k:k + 4], mev[k:k + 4])))
             rq = [x for x in reqchecks if x[1] == run_index]
